@@ -122,7 +122,7 @@ theorem IncInv.handleSelfUpdate (inc : Nat) (st : St) : Pres (IncInv a g n) (Foc
           refine ⟨h1, this.2, ?_⟩
           rcases h3 with h3 | h3
           · exact Or.inl h3
-          · exact Or.inr ⟨h3.1, by simp only; omega⟩
+          · exact Or.inr ⟨h3.1, by simp only [Gen.incBump]; omega⟩
         · exact PresAt.of_pres B.gossip
 
 theorem IncInv.full : Full E (IncInv a g n) (fun _ => True) (fun _ => True) (fun _ => True) where
